@@ -59,6 +59,15 @@ class LazyStack:
             return self.items[int(key)]
         if isinstance(key, slice):
             return LazyStack(self.items[key])
+        if isinstance(key, (list, tuple, np.ndarray)) and len(np.shape(key)) == 1:
+            # integer fancy index along the molecule axis (dask semantics: out-of-range raises, negative counts from the end)
+            import operator
+
+            idx = [operator.index(k) for k in list(key)]
+            n = len(self.items)
+            if any(k < -n or k >= n for k in idx):
+                raise IndexError("index out of bounds")
+            return LazyStack([self.items[k] for k in idx])
         raise Unsupported(f"LazyStack index {key!r}")
 
     def rechunk(self, *a, **k):
